@@ -36,7 +36,7 @@ MANIFEST = {
 
 
 def plan(tier):
-    t = 400 if tier == "quick" else 2400
+    t = 400 if tier == "quick" else 900
     parts = [f"0:{n},1:{h},2:{d}" for n in range(2) for h in range(3) for d in range(3)]  # first parameter: hint x docstring type
     return [
         K("k_options", "kjobs.c14", "option_parsing", "from_string of the option enums"),
